@@ -240,11 +240,30 @@ theorem parentX_spec (c : Cfg) (hg : c.Good) (ps : Ps) (s : PStep) (me : Caller)
     (hlow : lowestPidX ps s.listing = (⟨some low⟩, some low))
     (hos : ∀ pp, os ≠ some (some pp)) (hr : me.reused = false) (hgone : me.gone = false) :
     (parentX c ps s me os).1 = ⟨some low⟩
-      ∧ (parentX c ps s me os).2.2.2 = (parentOfW s low me.pid me.ctime).toOut := by
+      ∧ (parentX c ps s me os).2.2.2 = (parentOfW c.rootGuarded s low me.pid me.ctime).toOut := by
   unfold parentX
   simp only [hg.lowestStop, if_true, hlow]
   by_cases hroot : me.pid = low
-  · simp [hroot, parentOfW, PRes.toOut]
+  · cases hrg : c.rootGuarded with
+    | false => simp [hroot, parentOfW, PRes.toOut]
+    | true =>
+      simp only [hroot, beq_self_eq_true, if_true, parentOfW, hg.goneRaises]
+      rw [← hroot]
+      cases hwi : s.wi me.pid with
+      | gone =>
+        have := raiseX_dead (w := s.wi) hr hgone (by intro pp; rw [hwi]; simp)
+        simp [this, PRes.toOut]
+      | denied =>
+        have := raiseX_dead (w := s.wi) hr hgone (by intro pp; rw [hwi]; simp)
+        simp [this, PRes.toOut]
+      | ok pp0 s0 =>
+        by_cases hs0 : s0 = me.ctime
+        · subst hs0
+          rw [raiseX_alive true hr hgone hwi]
+          simp [PRes.toOut]
+        · have := raiseX_dead (w := s.wi) hr hgone (by
+            intro pp; rw [hwi]; intro h; cases h; exact hs0 rfl)
+          simp [this, hs0, PRes.toOut]
   · have hbeq : (me.pid == low) = false := by simpa using hroot
     simp only [hbeq, Bool.false_eq_true, if_false, true_and]
     have hos' : ppidX c s me os = ppidFresh c s me os := by
@@ -294,7 +313,7 @@ theorem parentsLoopX_spec (c : Cfg) (hg : c.Good) (W : Nat → PStep) (low : Nat
     ∀ (fuel i : Nat) (ps : Ps) (seen : List Nat) (cur : Caller) (os : Oneshot) (acc : List Row),
       lowestPidX ps (W i).listing = (⟨some low⟩, some low) → (∀ pp, os ≠ some (some pp)) →
       cur.reused = false → cur.gone = false →
-      (parentsLoopX c W fuel i ps seen cur os acc).2 = chainDyn W low fuel i seen cur.pid cur.ctime acc := by
+      (parentsLoopX c W fuel i ps seen cur os acc).2 = chainDyn c.rootGuarded W low fuel i seen cur.pid cur.ctime acc := by
   intro fuel
   induction fuel with
   | zero => intro _ _ _ _ _ _ _ _ _ _; rfl
@@ -306,7 +325,7 @@ theorem parentsLoopX_spec (c : Cfg) (hg : c.Good) (W : Nat → PStep) (low : Nat
     rw [hp] at h1 h2
     simp only at h1 h2
     subst h1 h2
-    cases hpo : parentOfW (W i) low cur.pid cur.ctime with
+    cases hpo : parentOfW c.rootGuarded (W i) low cur.pid cur.ctime with
     | none => simp [PRes.toOut]
     | nsp p => simp [PRes.toOut]
     | denied p => simp [PRes.toOut]
@@ -317,11 +336,22 @@ theorem parentsLoopX_spec (c : Cfg) (hg : c.Good) (W : Nat → PStep) (low : Nat
       · simp only [List.contains_iff_mem, hs, if_false]
         exact ih (i + 1) _ _ _ none _ (lowestPidX_cached low _) (by intro pp h; cases h) rfl rfl
 
-theorem parentOfW_some {s : PStep} {low pid ct : Nat} {q : Row} (h : parentOfW s low pid ct = .some q) :
+theorem parentOfW_some {rg : Bool} {s : PStep} {low pid ct : Nat} {q : Row} (h : parentOfW rg s low pid ct = .some q) :
     SameAt s pid ct ∧ ParentAt s pid ct q := by
   unfold parentOfW at h
   by_cases hroot : pid = low
-  · simp [hroot] at h
+  · cases rg with
+    | false => simp [hroot] at h
+    | true =>
+      simp only [hroot, if_true] at h
+      cases hwi : s.wi low with
+      | gone => simp [hwi] at h
+      | denied => simp [hwi] at h
+      | ok pp0 s0 =>
+        simp only [hwi] at h
+        by_cases hs0 : s0 = ct
+        · simp [hs0] at h
+        · simp [hs0] at h
   · simp only [hroot, if_false] at h
     cases hwi : s.wi pid with
     | gone => simp [hwi] at h
@@ -349,9 +379,9 @@ theorem parentOfW_some {s : PStep} {low pid ct : Nat} {q : Row} (h : parentOfW s
       · simp [hs0] at h
 
 /-- what `chainDyn` returns is linked step by step, avoids the PIDs already seen, repeats none -/
-theorem chainDyn_linked (W : Nat → PStep) (low : Nat) :
+theorem chainDyn_linked (rg : Bool) (W : Nat → PStep) (low : Nat) :
     ∀ (n i : Nat) (seen : List Nat) (pid ct : Nat) (acc l : List Row),
-      chainDyn W low n i seen pid ct acc = .ok l →
+      chainDyn rg W low n i seen pid ct acc = .ok l →
       ∃ l', l = acc ++ l' ∧ Linked W i pid ct l' ∧ (∀ q ∈ l', q.pid ∉ seen) ∧ (l'.map (·.pid)).Nodup
         ∧ (∀ q ∈ l', q.start ≤ ct) := by
   intro n
@@ -360,7 +390,7 @@ theorem chainDyn_linked (W : Nat → PStep) (low : Nat) :
   | succ n ih =>
     intro i seen pid ct acc l h
     unfold chainDyn at h
-    cases hpo : parentOfW (W i) low pid ct with
+    cases hpo : parentOfW rg (W i) low pid ct with
     | none =>
       simp only [hpo, XOut.ok.injEq] at h
       exact ⟨[], by simp [h], Linked.nil, by simp, by simp, by simp⟩
@@ -391,17 +421,17 @@ theorem chainDyn_linked (W : Nat → PStep) (low : Nat) :
           · exact Nat.le_trans (hle r hr') hpar.2.2
 
 /-- termination: every iteration adds a PID not seen before, and all of them come from `U` -/
-theorem chainDyn_terminates (W : Nat → PStep) (low : Nat) (U : List Nat)
+theorem chainDyn_terminates (rg : Bool) (W : Nat → PStep) (low : Nat) (U : List Nat)
     (hU : ∀ i p gp st, (W i).wp p = .ok gp st → p ∈ U) :
     ∀ (n i : Nat) (seen : List Nat) (pid ct : Nat) (acc : List Row),
-      unseenCnt U seen < n → chainDyn W low n i seen pid ct acc ≠ .diverged := by
+      unseenCnt U seen < n → chainDyn rg W low n i seen pid ct acc ≠ .diverged := by
   intro n
   induction n with
   | zero => intro _ _ _ _ _ h; omega
   | succ n ih =>
     intro i seen pid ct acc hlt
     unfold chainDyn
-    cases hpo : parentOfW (W i) low pid ct with
+    cases hpo : parentOfW rg (W i) low pid ct with
     | none => simp
     | nsp p => simp
     | denied p => simp
